@@ -231,6 +231,7 @@ def run_unit(w, binpath, pkg, test, pid, tier, seed, tmo, resume_ok, acc, replay
         env.update(VERIF_ID=pid, VERIF_TIER=tier, VERIF_SEED=str(seed), VERIF_OUT=outp, VERIF_PROGRESS=prog,
                    VERIF_RESUME=str(resume), VERIF_REPO=REPO, VERIF_DIR=VERIF, VERIF_SCRATCH=w,
                    GORACE="halt_on_error=0 log_path=%s/race" % w)
+        env["VERIF_ERRFILE"] = errf
         if replay:
             env["VERIF_REPLAY"] = replay
         cmd = ["timeout", "-s", "QUIT", str(tmo), binpath, "-test.run", "^%s$" % test, "-test.timeout", "0", "-test.v"]
